@@ -14,9 +14,15 @@ package main
 //                receive style x spawn form, varied GOMAXPROCS, injected yields; per-thread
 //                histories are collected by host builtins and judged by the oracle's
 //                validHistory.
-//   C. spawn     scenarios of spawn/reassign/run/wait over all spawn forms, ordered by
-//                gates, compared with the thread machine of the model; Spec evaluated on
-//                the Go results (arguments by value, wait returns the call's outcome).
+//   C. spawn     scenarios of spawn/reassign/run/wait over all spawn forms (go f(..),
+//                go o.m(..), go callee()(..), spawn(), fn.spawn(), host object.Spawn), with
+//                argument expressions of every shape in every position (variables, literals,
+//                nested calls with and without side effects, nested to depth 3) and calls
+//                that end in every way (return, raised error, Go panic in a builtin, Go panic
+//                by frame overflow), ordered by gates, compared with the thread machine of
+//                the model; Spec evaluated on the Go results (arguments are the spawn-site
+//                values, nested calls ran at the spawn site exactly once, wait returns the
+//                call's outcome — observed at the Go level (Thread.Wait) and by the script).
 
 import (
 	"context"
@@ -43,8 +49,10 @@ func c10_runC10(e *Env) {
 		"non-trivial when >= 3 values pass through the channel and >= 2 threads act; distinct by (cap, op list). " +
 		"B: one run of a generated script = (senders, receivers, buffer, per-sender counts, receive style, spawn form, send form, GOMAXPROCS, yield pattern), " +
 		"non-trivial when >= 2 goroutines communicate >= 100 values; distinct by that tuple. " +
-		"C: spawn scenarios (op list over spawn forms go/spawn()/fn.spawn()/host Spawn, reassignments, runs, waits), non-trivial when a variable passed " +
-		"as argument is reassigned (or its slice overwritten) between spawn and run; distinct by (layout, op list)"
+		"C: spawn scenarios (op list over spawn forms go f()/go o.m()/go callee()()/spawn()/fn.spawn()/host Spawn, argument expressions = variable | literal | " +
+		"nested call with side effect tick_i() | nested pure call dbl(A) to depth 3, call bodies = return | raise | Go panic in a builtin | Go panic by frame overflow, " +
+		"reassignments, runs, waits), non-trivial when a variable passed as argument is reassigned (or its slice overwritten) between spawn and run, " +
+		"or an argument is a nested call, or the call panics; distinct by (layout, op list)"
 	prev := runtime.GOMAXPROCS(0)
 	defer runtime.GOMAXPROCS(prev)
 	c10ChanOps(e)
@@ -803,9 +811,78 @@ type c10Scn struct {
 	vars    []int
 	shared  []int
 	ops     []string // oracle syntax
-	forms   []string // per spawn op: go | spawn | fnspawn | host
+	forms   []string // per spawn op: go | gom | goc | spawn | fnspawn | host
 	argc    []int
 }
+
+// argument expressions, oracle syntax: i | c<n> | cm<n> | t<i> | d<A>
+
+// c10ArgSrc renders an argument expression as risor source.
+func c10ArgSrc(a string) string {
+	switch {
+	case strings.HasPrefix(a, "d"):
+		return "dbl(" + c10ArgSrc(a[1:]) + ")"
+	case strings.HasPrefix(a, "t"):
+		return "tick" + a[1:] + "()"
+	case strings.HasPrefix(a, "cm"):
+		return "-" + a[2:]
+	case strings.HasPrefix(a, "c"):
+		return a[1:]
+	}
+	return "v" + a
+}
+
+// c10ArgEval is the Spec's own reading of an argument expression: evaluated by the
+// spawner, on the spawner's current variables, side effects included.
+func c10ArgEval(a string, cur []int) int {
+	switch {
+	case strings.HasPrefix(a, "d"):
+		return 2 * c10ArgEval(a[1:], cur)
+	case strings.HasPrefix(a, "t"):
+		i, _ := strconv.Atoi(a[1:])
+		cur[i]++
+		return cur[i]
+	case strings.HasPrefix(a, "cm"):
+		n, _ := strconv.Atoi(a[2:])
+		return -n
+	case strings.HasPrefix(a, "c"):
+		n, _ := strconv.Atoi(a[1:])
+		return n
+	}
+	i, _ := strconv.Atoi(a)
+	return cur[i]
+}
+
+// c10ArgVar: the variable an argument expression reads (-1: none); nested = contains a call
+func c10ArgVar(a string) (v int, nested bool) {
+	for strings.HasPrefix(a, "d") {
+		a = a[1:]
+		nested = true
+	}
+	switch {
+	case strings.HasPrefix(a, "t"):
+		v, _ = strconv.Atoi(a[1:])
+		return v, true
+	case strings.HasPrefix(a, "c"):
+		return -1, nested
+	}
+	v, _ = strconv.Atoi(a)
+	return v, nested
+}
+
+func c10ArgKind(a string) string {
+	switch {
+	case strings.HasPrefix(a, "d"):
+		return "nested pure call"
+	case strings.HasPrefix(a, "t"):
+		return "nested call with side effect"
+	case strings.HasPrefix(a, "c"):
+		return "literal"
+	}
+	return "variable"
+}
+
+func c10IsGo(form string) bool { return form == "go" || form == "gom" || form == "goc" }
 
 func (s c10Scn) key() string {
 	return fmt.Sprintf("spawn layout=%s builtin=%v vars=%v shared=%v forms=%v ops=%s", s.layout, s.builtin, s.vars, s.shared, s.forms, strings.Join(s.ops, ","))
@@ -824,10 +901,28 @@ func c10GenScn(rng *RNG) (c10Scn, bool) {
 	}
 	type th struct {
 		form   string
-		argv   []int
+		argv   []int // per argument: the variable it reads, -1 if none
 		ran    bool
 		poked  bool
 		reassd bool
+		nested bool // a nested call in the argument list, or a call that panics
+	}
+	var genArg func(depth int) string
+	genArg = func(depth int) string {
+		switch x := rng.Intn(100); {
+		case x < 50:
+			return strconv.Itoa(rng.Intn(nv))
+		case x < 58:
+			if rng.Bool() {
+				return "cm" + strconv.Itoa(1+rng.Intn(999))
+			}
+			return "c" + strconv.Itoa(rng.Intn(1000))
+		case x < 80:
+			return "t" + strconv.Itoa(rng.Intn(nv))
+		case depth < 3:
+			return "d" + genArg(depth+1)
+		}
+		return strconv.Itoa(rng.Intn(nv))
 	}
 	var ths []*th
 	n := 3 + rng.Intn(14)
@@ -835,21 +930,43 @@ func c10GenScn(rng *RNG) (c10Scn, bool) {
 	for len(s.ops) < n {
 		switch x := rng.Intn(100); {
 		case x < 25 && len(ths) < 5:
-			form := Pick(rng, []string{"go", "spawn", "fnspawn", "host"})
+			form := Pick(rng, []string{"go", "gom", "goc", "spawn", "fnspawn", "host"})
 			if s.builtin {
 				form = "host"
 			}
-			argc := rng.Intn(4)
+			argc := rng.Intn(5)
 			t := &th{form: form}
 			var as []string
 			for i := 0; i < argc; i++ {
-				v := rng.Intn(nv)
+				a := genArg(0)
+				v, nested := c10ArgVar(a)
+				if nested {
+					t.nested = true
+					// the nested call writes v: that is a reassignment for the threads spawned before
+					if strings.Contains(a, "t") {
+						for _, u := range ths {
+							for _, uv := range u.argv {
+								if uv == v && !u.ran {
+									u.reassd = true
+								}
+							}
+						}
+					}
+				}
 				t.argv = append(t.argv, v)
-				as = append(as, strconv.Itoa(v))
+				as = append(as, a)
 			}
 			body := "e"
-			if rng.Chance(25) && form != "go" && !s.builtin {
-				body = "f"
+			switch {
+			case s.builtin:
+				if rng.Chance(20) {
+					body = "p" // the host callable itself panics
+				}
+			case !c10IsGo(form) && rng.Chance(40):
+				body = Pick(rng, []string{"f", "f", "p", "p", "o"})
+			}
+			if body == "p" || body == "o" {
+				t.nested = true
 			}
 			a := strings.Join(as, ".")
 			if a == "" {
@@ -882,13 +999,13 @@ func c10GenScn(rng *RNG) (c10Scn, bool) {
 		case x < 88 && len(ths) > 0:
 			ti := rng.Intn(len(ths))
 			s.ops = append(s.ops, fmt.Sprintf("run:%d", ti))
-			if !ths[ti].ran && (ths[ti].poked || ths[ti].reassd) {
+			if !ths[ti].ran && (ths[ti].poked || ths[ti].reassd || ths[ti].nested) {
 				nontrivial = true
 			}
 			ths[ti].ran = true
 		case len(ths) > 0:
 			ti := rng.Intn(len(ths))
-			if ths[ti].form != "go" {
+			if !c10IsGo(ths[ti].form) {
 				s.ops = append(s.ops, fmt.Sprintf("w:%d", ti))
 			}
 		}
@@ -897,11 +1014,11 @@ func c10GenScn(rng *RNG) (c10Scn, bool) {
 	for ti, t := range ths {
 		if !t.ran {
 			s.ops = append(s.ops, fmt.Sprintf("run:%d", ti))
-			if t.poked || t.reassd {
+			if t.poked || t.reassd || t.nested {
 				nontrivial = true
 			}
 		}
-		if t.form != "go" {
+		if !c10IsGo(t.form) {
 			s.ops = append(s.ops, fmt.Sprintf("w:%d", ti))
 		}
 	}
@@ -919,6 +1036,8 @@ func (s c10Scn) script(impl []string) string {
 	var b strings.Builder
 	w := func(format string, a ...any) { fmt.Fprintf(&b, format+"\n", a...) }
 	ind := ""
+	// unbounded recursion: overflows the (cloned) VM's frame array, a Go panic inside the call
+	w("func c10deep(n) { return c10deep(n + 1) + 1 }")
 	if s.layout == "local" {
 		w("func main() {")
 		ind = "  "
@@ -926,6 +1045,13 @@ func (s c10Scn) script(impl []string) string {
 	for i, v := range s.vars {
 		w("%sv%d := %d", ind, i, v)
 	}
+	// the nested calls of argument expressions: one with a side effect per variable, one pure
+	var vnames []string
+	for i := range s.vars {
+		w("%stick%d := func() { v%d = v%d + 1; return v%d }", ind, i, i, i, i)
+		vnames = append(vnames, fmt.Sprintf("v%d", i))
+	}
+	w("%sdbl := func(x) { return 2 * x }", ind)
 	for i, v := range s.shared {
 		w("%sg%d := %d", ind, i, v)
 	}
@@ -949,14 +1075,19 @@ func (s c10Scn) script(impl []string) string {
 				ps = append(ps, fmt.Sprintf("a%d", i))
 			}
 			if f[2] != "-" {
-				for _, v := range strings.Split(f[2], ".") {
-					as = append(as, "v"+v)
+				for _, a := range strings.Split(f[2], ".") {
+					as = append(as, c10ArgSrc(a))
 				}
 			}
 			if !s.builtin {
 				fin := "return r"
-				if f[1] == "f" {
+				switch f[1] {
+				case "f":
 					fin = `error("E" + string(r))`
+				case "p":
+					fin = "boom(r)" // a host builtin that panics (Go level) with the data
+				case "o":
+					fin = "return c10deep(0)"
 				}
 				// private state: a local counter the call owns; shared state: g*
 				w("%sf%d := func(%s) {\n%s  gate(%d)\n%s  mine := 0\n%s  mine += 1\n%s  r := [%s]\n%s  report(%d, r, mine)\n%s  fin(%d)\n%s  %s\n%s}",
@@ -965,6 +1096,12 @@ func (s c10Scn) script(impl []string) string {
 			switch s.forms[t] {
 			case "go":
 				w("%sgo f%d(%s)", ind, t, strings.Join(as, ", "))
+			case "gom": // object-call form of the go statement
+				w("%sm%d := {run: f%d}", ind, t, t)
+				w("%sgo m%d.run(%s)", ind, t, strings.Join(as, ", "))
+			case "goc": // the callee itself is the result of a call
+				w("%spick%d := func() { return f%d }", ind, t, t)
+				w("%sgo pick%d()(%s)", ind, t, strings.Join(as, ", "))
 			case "spawn":
 				w("%sth%d := spawn(%s)", ind, t, strings.Join(append([]string{fmt.Sprintf("f%d", t)}, as...), ", "))
 			case "fnspawn":
@@ -976,6 +1113,8 @@ func (s c10Scn) script(impl []string) string {
 				}
 				w("%sth%d := hspawn(%s)", ind, t, strings.Join(append([]string{strconv.Itoa(t), target}, as...), ", "))
 			}
+			// what the spawner sees right after the statement (side effects of nested calls)
+			w("%ssnap(%d, [%s])", ind, t, strings.Join(vnames, ", "))
 			t++
 		case "k":
 			if !blocked {
@@ -987,7 +1126,8 @@ func (s c10Scn) script(impl []string) string {
 			}
 		case "w":
 			if !blocked {
-				w("%swaitres(%d, %s, try(func() { return th%s.wait() }, func(e) { return \"ERR:\" + string(e) }))", ind, wn, f[1], f[1])
+				// Go level first (Thread.Wait); the script-level wait() only when that handed out an object at all
+				w("%sif hwait(%d, th%s) {\n%s  waitres(%d, %s, try(func() { return th%s.wait() }, func(e) { return \"ERR:\" + string(e) }))\n%s}", ind, wn, f[1], ind, wn, f[1], f[1], ind)
 			}
 			wn++
 		}
@@ -1008,13 +1148,58 @@ func c10Ints(o object.Object) string {
 		if i, ok := x.(*object.Int); ok {
 			parts = append(parts, strconv.FormatInt(i.Value(), 10))
 		} else {
-			parts = append(parts, "?"+x.Inspect())
+			ins := "gonil"
+			if x != nil {
+				ins = strings.NewReplacer(".", "·", ",", ";", "\n", " ").Replace(x.Inspect())
+				if len(ins) > 60 {
+					ins = ins[:60] + "…"
+				}
+				ins = string(x.Type()) + "(" + ins + ")"
+			}
+			parts = append(parts, "?"+ins)
 		}
 	}
 	if len(parts) == 0 {
 		return "-"
 	}
 	return strings.Join(parts, ".")
+}
+
+// c10SpawnSrc: the spawn statement as the script spells it (for messages)
+func c10SpawnSrc(form, args string) string {
+	var as []string
+	if args != "-" && args != "" {
+		for _, a := range strings.Split(args, ".") {
+			as = append(as, c10ArgSrc(a))
+		}
+	}
+	switch form {
+	case "go":
+		return "`go f(" + strings.Join(as, ", ") + ")`"
+	case "gom":
+		return "`go m.run(" + strings.Join(as, ", ") + ")`"
+	case "goc":
+		return "`go pick()(" + strings.Join(as, ", ") + ")`"
+	case "spawn":
+		return "`spawn(" + strings.Join(append([]string{"f"}, as...), ", ") + ")`"
+	case "fnspawn":
+		return "`f.spawn(" + strings.Join(as, ", ") + ")`"
+	}
+	return "`object.Spawn(ctx, f, [" + strings.Join(as, ", ") + "])`"
+}
+
+// c10SpArgs: the argument field of the ti-th spawn op
+func c10SpArgs(ops []string, ti int) string {
+	n := 0
+	for _, op := range ops {
+		if f := strings.Split(op, ":"); f[0] == "sp" {
+			if n == ti {
+				return f[2]
+			}
+			n++
+		}
+	}
+	return "-"
 }
 
 func c10Spawn(e *Env) {
@@ -1030,17 +1215,43 @@ func c10Spawn(e *Env) {
 	}
 	var scns []gen
 	// directed: the property's own sentence, once per spawn form
-	for _, form := range []string{"go", "spawn", "fnspawn", "host"} {
+	allForms := []string{"go", "gom", "goc", "spawn", "fnspawn", "host"}
+	for _, form := range allForms {
 		ops := []string{"sp:e:0.1", "a:0:111", "a:1:222", "run:0"}
 		if form == "host" {
 			ops = []string{"sp:e:0.1", "a:0:111", "k:0:1:333", "run:0"}
 		}
-		if form != "go" {
+		if !c10IsGo(form) {
 			ops = append(ops, "w:0", "w:0")
 		}
 		scns = append(scns, gen{c10Scn{layout: "global", vars: []int{5, 6}, shared: []int{7}, ops: ops, forms: []string{form}, argc: []int{2}}, true})
 	}
 	scns = append(scns, gen{c10Scn{layout: "global", builtin: true, vars: []int{5, 6}, ops: []string{"sp:e:0.1", "k:0:0:333", "a:1:9", "run:0", "w:0"}, forms: []string{"host"}, argc: []int{2}}, true})
+	// directed: one nested call as the only argument, per spawn form and kind of nested call
+	// (pure / with a side effect), smallest first; then the mixed list
+	for _, args := range []string{"d0", "t0", "t0.d1.0.dt1.c7"} {
+		for _, layout := range []string{"global", "local"} {
+			for _, form := range allForms {
+				ops := []string{"sp:e:" + args, "a:0:111", "run:0"}
+				if !c10IsGo(form) {
+					ops = append(ops, "w:0")
+				}
+				scns = append(scns, gen{c10Scn{layout: layout, vars: []int{5, 6}, shared: []int{7}, ops: ops, forms: []string{form}, argc: []int{strings.Count(args, ".") + 1}}, true})
+			}
+		}
+	}
+	// directed: the spawned call ends in a Go panic (a builtin that panics; the frame array
+	// overflowing); wait() must hand out that error, every time
+	for _, body := range []string{"p", "o"} {
+		for _, form := range []string{"spawn", "fnspawn", "host"} {
+			scns = append(scns, gen{c10Scn{layout: "global", vars: []int{5, 6}, shared: []int{7}, ops: []string{"sp:" + body + ":0", "run:0", "w:0", "w:0"}, forms: []string{form}, argc: []int{1}}, true})
+		}
+	}
+	scns = append(scns, gen{c10Scn{layout: "global", builtin: true, vars: []int{5, 6}, ops: []string{"sp:p:0.1", "run:0", "w:0", "w:0"}, forms: []string{"host"}, argc: []int{2}}, true})
+	// one panicking call among calls that return: each wait() tells them apart
+	scns = append(scns, gen{c10Scn{layout: "global", vars: []int{5, 6}, shared: []int{7},
+		ops:   []string{"sp:e:0", "sp:o:1", "sp:e:d1", "run:0", "run:1", "run:2", "w:0", "w:1", "w:2"},
+		forms: []string{"spawn", "spawn", "spawn"}, argc: []int{1, 1, 1}}, true})
 	for i := 0; i < n; i++ {
 		s, nt := c10GenScn(rng)
 		scns = append(scns, gen{s, nt})
@@ -1082,6 +1293,21 @@ func c10RunScn(e *Env, s c10Scn, nontrivial bool, impl []string) bool {
 		}
 		e.R.H("spawn_form", f)
 	}
+	bodies := map[int]string{} // thread -> e | f | p | o
+	for _, op := range s.ops {
+		if f := strings.Split(op, ":"); f[0] == "sp" {
+			bodies[len(bodies)] = f[1]
+			e.R.H("spawn_body", map[string]string{"e": "returns", "f": "raises", "p": "Go panic in a builtin", "o": "Go panic by frame overflow"}[f[1]])
+			if f[2] != "-" {
+				for i, a := range strings.Split(f[2], ".") {
+					e.R.H("spawn_arg_kind", c10ArgKind(a))
+					if _, nested := c10ArgVar(a); nested {
+						e.R.H("spawn_nested_call_position", strconv.Itoa(i))
+					}
+				}
+			}
+		}
+	}
 	if len(impl) != len(s.ops) {
 		e.R.Mismatch(key, "-", strings.Join(impl, ","), "oracle reply malformed")
 		return true
@@ -1096,6 +1322,7 @@ func c10RunScn(e *Env, s c10Scn, nontrivial bool, impl []string) bool {
 	reports := map[int]string{} // thread -> what its call computed
 	mines := map[int]string{}
 	waits := map[int]string{} // wait ordinal -> observation
+	snaps := map[int]string{} // thread -> the spawner's variables right after its spawn statement
 	callerSlices := map[int][]object.Object{}
 	var hung atomic.Value
 	await := func(ch chan struct{}, what string) bool {
@@ -1150,8 +1377,44 @@ func c10RunScn(e *Env, s c10Scn, nontrivial bool, impl []string) bool {
 			default:
 				o = "other(" + args[2].Inspect() + ")"
 			}
+			if strings.HasPrefix(o, "str(ERR:panic: P[") {
+				body := strings.TrimSuffix(strings.TrimPrefix(o, "str(ERR:panic: P["), "])")
+				if body == "" {
+					o = "p.-"
+				} else {
+					o = "p." + strings.ReplaceAll(body, ", ", ".")
+				}
+			}
 			waits[intArg(args[0])] = o
 			return object.Nil
+		}),
+		// a Go panic inside the spawned call (the builtin's own, not a raised error)
+		"boom": object.NewBuiltin("boom", func(ctx context.Context, args ...object.Object) object.Object {
+			panic("P" + args[0].Inspect())
+		}),
+		"snap": object.NewBuiltin("snap", func(ctx context.Context, args ...object.Object) object.Object {
+			mu.Lock()
+			defer mu.Unlock()
+			snaps[intArg(args[0])] = c10Ints(args[1])
+			return object.Nil
+		}),
+		// Go-API level wait: what Thread.Wait hands out; false when that is not an object at
+		// all (a Go nil has no meaning inside the VM, the script-level wait() is skipped then)
+		"hwait": object.NewBuiltin("hwait", func(ctx context.Context, args ...object.Object) object.Object {
+			th, ok := args[1].(*object.Thread)
+			if !ok {
+				mu.Lock()
+				waits[intArg(args[0])] = "notathread(" + args[1].Inspect() + ")"
+				mu.Unlock()
+				return object.False
+			}
+			if r := th.Wait(ctx); r == nil {
+				mu.Lock()
+				waits[intArg(args[0])] = "gonil"
+				mu.Unlock()
+				return object.False
+			}
+			return object.True
 		}),
 		// Go-API level spawn: the host keeps the slice it handed to object.Spawn
 		"hspawn": object.NewBuiltin("hspawn", func(ctx context.Context, args ...object.Object) object.Object {
@@ -1171,6 +1434,9 @@ func c10RunScn(e *Env, s c10Scn, nontrivial bool, impl []string) bool {
 					mines[t] = "1"
 					mu.Unlock()
 					close(g.fin[t])
+					if bodies[t] == "p" {
+						panic("P" + r.Inspect())
+					}
 					return r
 				})
 			}
@@ -1211,8 +1477,9 @@ func c10RunScn(e *Env, s c10Scn, nontrivial bool, impl []string) bool {
 		}
 	}
 	if h := hung.Load(); !finished || err != nil || h != nil {
-		e.R.Mismatch(key, fmt.Sprintf("finished=%v err=%v hung=%v", finished, err, h), strings.Join(impl, ","), "scenario script did not complete")
-		return false
+		e.R.Mismatch(key, fmt.Sprintf("finished=%v err=%v hung=%v", finished, err, h), strings.Join(impl, ","), "scenario script did not complete\n"+src)
+		// only runs that cost a timeout count towards stopping early; a script that fails at once is cheap
+		return finished && h == nil
 	}
 	// compare with the model, op by op
 	mu.Lock()
@@ -1235,19 +1502,30 @@ func c10RunScn(e *Env, s c10Scn, nontrivial bool, impl []string) bool {
 		case "sp":
 			var p []string
 			if f[2] != "-" {
-				for _, vs := range strings.Split(f[2], ".") {
-					vi, _ := strconv.Atoi(vs)
-					p = append(p, strconv.Itoa(cur[vi]))
+				for _, a := range strings.Split(f[2], ".") { // left to right, side effects included
+					p = append(p, strconv.Itoa(c10ArgEval(a, cur)))
 				}
 			}
 			spawnVals[t] = strings.Join(p, ".")
+			// Spec: the nested calls of the argument list ran at the spawn site, each once
+			var cs []string
+			for _, v := range cur {
+				cs = append(cs, strconv.Itoa(v))
+			}
+			if snaps[t] != strings.Join(cs, ".") {
+				e.R.Spec(key, fmt.Sprintf("thread %d (%s %s): right after the spawn statement the spawner's variables are [%s]; evaluating the argument expressions at the spawn site gives [%s]",
+					t, s.forms[t], c10SpawnSrc(s.forms[t], f[2]), snaps[t], strings.Join(cs, ".")), "")
+			}
+			if mf := strings.SplitN(impl[idx], ":", 4); len(mf) == 4 {
+				o = strings.Join(mf[:3], ":") + ":" + snaps[t]
+			}
 			t++
 		case "run":
 			if impl[idx] != "B" {
 				ti, _ := strconv.Atoi(f[1])
 				kind := "r"
-				if strings.HasPrefix(impl[idx], "ran:e") {
-					kind = "e"
+				if len(impl[idx]) > 4 { // ran:r. | ran:e. | ran:p.
+					kind = impl[idx][4:5]
 				}
 				o = "ran:" + kind + "." + reports[ti]
 				ranOutcome[ti] = kind + "." + reports[ti]
@@ -1268,16 +1546,26 @@ func c10RunScn(e *Env, s c10Scn, nontrivial bool, impl []string) bool {
 					gotArgs = gotArgs[:s.argc[ti]]
 				}
 				if strings.Join(gotArgs, ".") != want {
-					e.R.Spec(key, fmt.Sprintf("thread %d (%s) read arguments [%s], the spawn site gave [%s]", ti, s.forms[ti], strings.Join(gotArgs, "."), want), "")
+					e.R.Spec(key, fmt.Sprintf("thread %d (%s) read arguments [%s], the spawn site gave [%s]", ti, s.forms[ti]+" "+c10SpawnSrc(s.forms[ti], c10SpArgs(s.ops, ti)), strings.Join(gotArgs, "."), want), "")
 				}
 			}
 		case "w":
 			if impl[idx] != "B" {
 				ti, _ := strconv.Atoi(f[1])
-				o = "w:" + waits[wn]
+				got := waits[wn]
+				if bodies[ti] == "o" && strings.HasPrefix(got, "str(ERR:panic: runtime error: index out of range") {
+					// the overflow's message carries no data: the error of this call's panic it is
+					got = "p." + reports[ti]
+				}
+				o = "w:" + got
 				// Spec: wait returns exactly the call's result or error
-				if waits[wn] != ranOutcome[ti] {
-					e.R.Spec(key, fmt.Sprintf("wait() of thread %d returned %s, its call produced %s", ti, waits[wn], ranOutcome[ti]), "")
+				if got != ranOutcome[ti] {
+					what := map[string]string{"e": "returned", "f": "raised an error", "p": "panicked in a builtin (its error is the call's outcome)", "o": "overflowed the frame array (its panic error is the call's outcome)"}[bodies[ti]]
+					gotText := got
+					if got == "gonil" {
+						gotText = "a Go nil from Thread.Wait (neither a value nor an error)"
+					}
+					e.R.Spec(key, fmt.Sprintf("wait() of thread %d (%s) returned %s; its call %s: %s", ti, s.forms[ti], gotText, what, ranOutcome[ti]), "")
 				}
 			}
 			wn++
